@@ -202,6 +202,10 @@ class _PropFailure(Exception):
     pass
 
 
+class _StopShrink(KeyboardInterrupt):
+    """Raised inside a Hypothesis test once the shrink budget is spent (hyp_search)."""
+
+
 def hyp_search(
     strategy,
     prop,
@@ -249,10 +253,10 @@ def hyp_search(
             stats.budget_skipped += 1
             return
         if "case" in last and time.time() > last["t"] + shrink_budget_s:
-            # shrink budget used up: stop evaluating candidates; the best example so far still fails
-            if case == last["case"]:
-                raise _PropFailure(last["msg"])
-            return
+            # shrink budget used up: leave Hypothesis at once (its engine lets a KeyboardInterrupt through untouched);
+            # the best example so far is in `last`.  Merely answering 'passes' to every further candidate kept the
+            # shrinker busy generating candidates for minutes on large cases.
+            raise _StopShrink()
         try:
             msg = prop(case)
         except Discard as d:
@@ -272,7 +276,7 @@ def hyp_search(
 
     try:
         test()
-    except _PropFailure:
+    except (_PropFailure, _StopShrink):
         pass
     except BaseException as e:  # hypothesis-internal (Flaky, Unsatisfiable, ...)
         if "case" not in last:
